@@ -4,12 +4,14 @@ import (
 	"fmt"
 	"strings"
 
+	. "verifharness/lib"
+
 	"github.com/absfs/absnfs"
 )
 
 // C05 / C06 (table level): allocation histories on the real FileHandleMap.
 func init() {
-	props["C05"] = &Prop{
+	Props["C05"] = &Prop{
 		Imports:    "From Verif Require Import Model.Handles Corr.C05.",
 		Gen:        genC05,
 		Corpus:     corpusC05,
@@ -53,7 +55,7 @@ func runC05(max int, ops []hop, kind string, idx int) Case {
 		for i, e := range tab {
 			var p uint64
 			fmt.Sscanf(e.Path, "/p%d", &p)
-			rows[i] = cPair(cN(e.Handle), cN(p))
+			rows[i] = CPair(CN(e.Handle), CN(p))
 		}
 		if o.kind == 0 && len(tab) < prevCount {
 			tags["evictions"]++
@@ -62,10 +64,10 @@ func runC05(max int, ops []hop, kind string, idx int) Case {
 			tags["evictions"]++
 		}
 		prevCount = len(tab)
-		coqObs = append(coqObs, cPair(cN(ret), cList(rows)))
+		coqObs = append(coqObs, CPair(CN(ret), CList(rows)))
 		txt = append(txt, fmt.Sprintf("%s->%d|n=%d", coqOps[len(coqOps)-1], ret, len(tab)))
 	}
-	coq := fmt.Sprintf("{| c_max := %s; c_ops := %s; c_obs := %s |}", cZ(int64(max)), cList(coqOps), cList(coqObs))
+	coq := fmt.Sprintf("{| c_max := %s; c_ops := %s; c_obs := %s |}", CZ(int64(max)), CList(coqOps), CList(coqObs))
 	return Case{Index: idx, Kind: kind, Coq: coq, Tags: tags,
 		Text: fmt.Sprintf("max=%d %s", max, strings.Join(txt, " "))}
 }
